@@ -10,6 +10,7 @@
 #include "sym.h"
 #include "ccl/semantic/CstList.h"
 #include "ccl/semantic/IdentityManager.h"
+#include <string>
 #include <vector>
 #include <set>
 #ifndef N
@@ -31,6 +32,7 @@ static char letterOf(CstType t) {
 }
 static int pick(int n, const char* name) { return sym_concretize_i32(sym_range(0, n - 1, name)); }
 
+#if PART != 3
 extern "C" void harness_main() {
 #if PART == 1
   CstType kinds[N + 2];
@@ -162,3 +164,63 @@ extern "C" void harness_main() {
   sym_assert(false, "witness");
 #endif
 }
+
+#else
+// PART 3: tracking (inherited constituents) together with the operations that erase behind the user's back:
+// schema X1, X2, D1:=X1\X1, D2:=X2\X2, D3:=X1\X1 (a duplicate of D1); K steps from {Track, StopTracking, Erase,
+// SetExpressionFor, DeleteDuplicates, Equate(base pair), InsertCopy of a record with a previously used uid}.
+#include "ccl/semantic/RSForm.h"
+#include "ccl/ops/EquationOptions.h"
+extern "C" void harness_main() {
+  RSForm f;
+  std::vector<EntityUID> ever;
+  ever.push_back(f.Emplace(CstType::base)); ever.push_back(f.Emplace(CstType::base));
+  ever.push_back(f.Emplace(CstType::term, "X1\\X1")); ever.push_back(f.Emplace(CstType::term, "X2\\X2")); ever.push_back(f.Emplace(CstType::term, "X1\\X1"));
+  auto invariants = [&]() {
+    for (const auto u : ever) {
+      if (f.Contains(u)) continue;
+      sym_assert(!f.Mods().IsTracking(u) && f.Mods()(u) == nullptr, "erased-gone-from-tracking");
+      sym_assert(!f.Texts().Contains(u) && !f.RSLang().Graph().Contains(u) && f.List().Find(u) == f.List().end(), "erased-gone-from-every-view");
+    }
+    std::set<std::string> names;
+    for (const auto u : f.List()) sym_assert(names.insert(f.GetRS(u).alias).second, "aliases-unique");
+  };
+  for (int step = 0; step < K; ++step) {
+    const EntityUID target = ever[(size_t)pick((int)ever.size(), "target")];
+    switch (pick(7, "op")) {
+    case 0: if (f.Contains(target)) { f.Mods().Track(target); sym_reach("tracked"); } break;
+    case 1: f.Mods().StopTracking(target); break;
+    case 2: {
+      const bool tracked = f.Mods().IsTracking(target);
+      const bool ok = f.Erase(target);
+      if (tracked) sym_assert(!ok, "tracked-constituent-cannot-be-erased");
+      break;
+    }
+    case 3: {
+      const bool tracked = f.Contains(target) && f.Mods().IsTracking(target) && !f.Mods()(target)->allowEdit;
+      const bool ok = f.SetExpressionFor(target, "X1");
+      if (tracked) sym_assert(!ok, "tracked-definition-cannot-be-edited");
+      break;
+    }
+    case 4: (void)f.Ops().DeleteDuplicates(); sym_reach("delete-duplicates"); break;
+    case 5: { const EntityUID other = ever[(size_t)pick(2, "base")]; if (f.Contains(target) && f.Contains(other) && target != other) (void)f.Ops().Equate(ops::EquationOptions{target, other}); break; }
+    default: {   // a constituent from elsewhere that happens to carry a uid used here before
+      ConceptRecord r; r.uid = target; r.alias = "D9"; r.type = CstType::term; r.rs = "X1\xE2\x88\xAAX1";
+      if (!f.Contains(target)) {
+        const auto fresh = f.InsertCopy(r);
+        ever.push_back(fresh);
+        sym_assert(!f.Mods().IsTracking(fresh), "inserted-copy-is-not-tracked");
+        sym_assert(f.SetExpressionFor(fresh, "X1"), "untracked-copy-can-be-edited");
+        sym_reach("copy-with-old-uid");
+      }
+      break;
+    }
+    }
+    invariants();
+  }
+  sym_reach("tracking");
+#ifdef WITNESS
+  sym_assert(false, "witness");
+#endif
+}
+#endif
